@@ -14,7 +14,7 @@
     end_of_text names the first deliverable token with exactly its span, reports "unrecognised" exactly
     when nothing is deliverable and the scan stops at a rejected character; seq_count never names a
     token: its only error is "unrecognised", only on a scan that does not end cleanly (RunErrors3). *)
-From Tephra Require Import MetricsSpec CLexer LexerFacts Run Peg RunCore RunErrors RunErrors2 LexerOps RunList LexerFin RunErrors3.
+From Tephra Require Import MetricsSpec CLexer LexerFacts Run Peg RunCore RunErrors RunErrors2 LexerOps RunList LexerFin RunErrors3 LexerCanon RunPos.
 
 Theorem C13_one_names_first_token :
   forall m, 1 <= tabw m -> forall t, wf_text t ->
@@ -127,6 +127,16 @@ Theorem C13_seq_count_error :
   e = EUnrecognized (c_parse_span lx) /\ clean t lx ys = false /\ st' = st.
 Proof. exact seq_count_error. Qed.
 Print Assumptions C13_seq_count_error.
+
+(** the first sentence of the property, for the whole model: every span of every returned or reported
+    error (under any number of user tags) has canonical ends - positions of the text, on unit boundaries -
+    in order; likewise the boundary position *)
+Theorem C13_every_error_span_inside_and_ordered :
+  forall m, 1 <= tabw m -> forall t, wf_text t ->
+  forall fuel g lx c e st', gok m t g -> PosOK m t lx ->
+  run fuel g lx c (mkstore [] []) = (RErr e, st') -> err_ok m t e /\ Forall (err_ok m t) (log st').
+Proof. exact run_error_positions_canonical. Qed.
+Print Assumptions C13_every_error_span_inside_and_ordered.
 
 (** concrete: both(one a, any[b]) on "a  c": the error span is that of "c" (bytes 3..4), the
     parse-so-far span is that of "a" (0..1) *)
